@@ -587,7 +587,7 @@ Proof.
   induction ops as [|o r IH]; intros p i; [reflexivity|]. destruct p as [pu pv].
   cbn [dtrace]. destruct (tstep (pu, pv) o) as [p' x] eqn:E.
   unfold tstep in E. cbn [monitor_det].
-  destruct o as [ro [l|a b]|w b].
+  destruct o as [ro [l|a b]|w b|].
   - injection E as <- <-.
     rewrite !ostz_cview.
     pose proof (filter_ok_model (det_of (pu, pv) ro) l) as Hok. cbn [det_of d_ro d_udp d_ip6] in Hok.
@@ -604,6 +604,7 @@ Proof.
   - destruct w; cbv beta iota zeta in E; injection E as <- <-; cbn [andb fst snd];
       [apply (IH (pu, option_map (fun c => record_result c b) pv))
       |apply (IH (option_map (fun c => record_result c b) pu, pv))].
+  - injection E as <- <-. cbn [andb fst snd]. rewrite !cview_eqb_refl. apply (IH (pu, pv)).
 Qed.
 
 (* the model conforms to its own trace (sanity of the conformance function) *)
